@@ -1,4 +1,5 @@
 //! Verification harness for gfx-rs/rspirv: calls the real code in-process.
+pub mod glue_builder;
 pub mod glue_decode;
 pub mod glue_enums;
 pub mod glue_operand;
